@@ -3,7 +3,7 @@ with scripted rail actions, a prompt-recording fake LLM and deterministic embedd
 
 A *case* (JSON):
   {"ver": "1.0"|"2.x", "dialog": bool, "exc": bool, "in": [rail ids in configured order], "out": [rail ids],
-   "carry": "messages"|"state"|"fresh" (messages, but no events cache: stateless deployment)|"stateobj" (2.x: the caller decodes the returned JSON itself and passes a State object), "trail": null|"system"|"context" (1.0: a message of that role follows the user message in every request), "gen": "std"|"pt"|"ptp"|"ptfn"|"single" (1.0 generation mode), "front": bool,
+   "carry": "messages"|"state"|"fresh" (messages, but no events cache: stateless deployment)|"stateobj" (2.x: the caller decodes the returned JSON itself and passes a NEW State object to every call)|"liveobj" (2.x: the caller keeps ONE live State object and hands it to every call), "trail": null|"system"|"context" (1.0: a message of that role follows the user message in every request), "gen": "std"|"pt"|"ptp"|"ptfn"|"single" (1.0 generation mode), "front": bool,
    "usaid": "something"|"plain"|"regex"|"multi" (2.x without dialog rails: how the answering flow waits for the user; multi = two answering flows),
    "wire": bool (2.x: the returned state goes through json.dumps / json.loads before it is handed back, as on a server; default: the same dict),
    "turns": [{"user": str, "bot": str, "intent": "flow"|"free"|"act",
@@ -601,7 +601,7 @@ def get_rails(case):
                 obj = state if state is not None and not isinstance(state, dict) else None
                 _STATE["obj"] = obj
                 if obj is not None:
-                    if any(obj is o for o in _STATE["objs"]):
+                    if any(obj is o for o in _STATE["objs"]) and not _STATE.get("live"):
                         _STATE["reused"] = True
                     _STATE["objs"].append(obj)
                 return await orig_pe(events, state=state, **kw)
@@ -653,6 +653,8 @@ async def _run(case):
     if case.get("trail") and case["ver"] == "1.0":
         trail = [TRAIL_SYSTEM] if case["trail"] == "system" else [TRAIL_CONTEXT]
     _STATE["objs"] = []
+    _STATE["live"] = case.get("carry") == "liveobj"
+    live = None
     for t in case["turns"]:
         _STATE["script"] = t
         _STATE["rec"] = rec = []
@@ -696,7 +698,11 @@ async def _run(case):
                             messages.append(dict(res) if isinstance(res, dict) else {"role": "assistant", "content": rep["content"]})
                 else:
                     given = state
-                    if case.get("carry") == "stateobj" and case["ver"] == "2.x" and isinstance(state, dict) and state.get("version") == "2.x":
+                    if case.get("carry") == "liveobj" and case["ver"] == "2.x" and live is not None:
+                        # the caller keeps ONE live State object (as the chat CLI does with `process_events`) and hands the object to
+                        # every call; the call mutates it in place - also when it fails
+                        given = live
+                    elif case.get("carry") == "stateobj" and case["ver"] == "2.x" and isinstance(state, dict) and state.get("version") == "2.x":
                         # a caller that decodes the JSON it was given itself (a new object for every call) and passes the object
                         from nemoguardrails.colang.v2_x.runtime.serialization import json_to_state
 
@@ -704,6 +710,10 @@ async def _run(case):
                     res = await rails.generate_async(messages=front + [{"role": "user", "content": t["user"]}] + trail, state=given, **kw)
                     rep = _canon_reply(res)
                     state = res.state
+                    if case.get("carry") == "liveobj" and case["ver"] == "2.x" and live is None and isinstance(state, dict) and state.get("version") == "2.x":
+                        from nemoguardrails.colang.v2_x.runtime.serialization import json_to_state
+
+                        live = json_to_state(state["state"])
                     if case.get("wire") and isinstance(state, dict) and state.get("version") == "2.x":
                         state = json.loads(json.dumps(state))  # the state travels like on a server: as a JSON document
             o["reply"] = rep
